@@ -34,8 +34,12 @@ Definition compile_varop (nm : names) (t : score) (o : vop) (r : operand)
   | VFalse, ONone => Some ([CSet t 0], [])
   | VNullTrue, ONone => Some ([CExecute [unless_set t] (CSet t 1)], [])
   | VNullFalse, ONone => Some ([CAdd t 0], [])
-  | VAdd, OLit z => Some (if z <? 0 then [CRemove t (- z)] else [CAdd t z], [])
-  | VSub, OLit z => Some (if z <? 0 then [CAdd t (- z)] else [CRemove t z], [])
+  (* the literal -2147483648 cannot be negated into a valid amount: it goes
+     through the __int__ constant (repaired by the fix: commit, see known_findings.json) *)
+  | VAdd, OLit z => Some (if z =? INT_MIN then ([COp t OAdd (int_score nm z)], [z])
+                          else (if z <? 0 then [CRemove t (- z)] else [CAdd t z], []))
+  | VSub, OLit z => Some (if z =? INT_MIN then ([COp t OSub (int_score nm z)], [z])
+                          else (if z <? 0 then [CAdd t (- z)] else [CRemove t z], []))
   | VAssign, OLit z => Some ([CSet t z], [])
   | VNull, OLit z => Some (if z =? 0 then [CAdd t 0]
                            else [CExecute [unless_set t] (CSet t z)], [])
